@@ -31,7 +31,7 @@
                      for PointwiseNorm, |z| > 0 for ComplexModulus.  (Norm/Dist singularities are covered by
                      [deriv_ok]: the code raises there.) *)
 From Coq Require Import Reals List Bool ZArith.
-From Verif Require Import Base.Num Base.Vec C06.Syntax Gen.UfuncDeriv C06.Model C06.Calc C06.Lin C06.LinMap C06.Leaves C06.Proofs C06.FModel C06.FProofs Gen.Derivatives C06.Interp C06.Tie Gen.Gradients C06.FInterp C06.FTie Base.Transfer C06.Corr C06.Transfer C06.Frechet C06.FrechetTrees.
+From Verif Require Import Base.Num Base.Vec C06.Syntax Gen.UfuncDeriv C06.Model C06.Calc C06.Lin C06.LinMap C06.Leaves C06.Proofs C06.FModel C06.FProofs Gen.Derivatives C06.Interp C06.Tie Gen.Gradients C06.FInterp C06.FTie Base.Transfer C06.Corr C06.Transfer C06.Frechet C06.FrechetTrees C06.FFrechet.
 From Coq Require Import QArith Qreals.
 Local Open Scope R_scope.
 Import ListNotations.
@@ -364,6 +364,17 @@ Theorem functional_derivative_is_frechet :
   hdiff (fdim f) 1 (fun y => [feval sqrt w f y]) x (fun d => [wdot w d (fgrad sqrt mav w f x)]).
 Proof. exact functional_derivative_sound. Qed.
 Print Assumptions functional_derivative_is_frechet.
+
+(* ... and literally, little-o in the norm:  | f(x+h) - f(x) - <h, gradient(x)>_w | <= eps ||h||
+   for ||h|| < delta  (every tree of the functional arithmetic, both values of mav) *)
+Theorem functional_derivative_is_frechet_in_norm :
+  forall (mav : bool) (f : @fexpr R) (w x : list R),
+  fwt f = true -> fok mav w f = true -> length w = fdim f -> length x = fdim f -> fregular w f x ->
+  forall eps, 0 < eps -> exists delta, 0 < delta /\
+    forall h, length h = fdim f -> supn h < delta ->
+      Rabs (feval sqrt w f (vadd x h) - feval sqrt w f x - wdot w h (fgrad sqrt mav w f x)) <= eps * supn h.
+Proof. exact functional_frechet_norm. Qed.
+Print Assumptions functional_derivative_is_frechet_in_norm.
 
 (* The unrestricted statement (drop [fok w f]) is FALSE of the faithful model -- the recorded
    finding FunctionalComp-MatrixOperator-weighted-space:
